@@ -68,6 +68,42 @@ DisImplMap(SA, SB, flt, dev) ==
 \* SubstitutionMapper renames every Variable node, map_expressions covers lhs, rhs, condition
 DisImplResult(SA, SB, flt, dev) == RenameStream(SB, DisImplMap(SA, SB, flt, dev))
 
+\* --- NOT what the code does: the model of a design error (negative control) ---
+\* One memoising renamer for the whole stream (a single mapper instance used for every lhs,
+\* rhs and condition in list order), its memo keyed by Python equality of the node plus the
+\* type of the OUTERMOST node only: constants themselves are told apart by kind, compound
+\* nodes that contain constants of different kinds are not (2*i == 2.0*i, hash included).
+\* A later expression is then answered with the rewritten form of an earlier look-alike.
+\* C20_Gen: cfg C20_Gen_bug_CachedMapper must violate Ctl_CachedRefines (the strict clauses
+\* catch it), cfg C20_Gen_blind_LooseEq must pass (clauses with Python's == cannot see it).
+CKey(e) == IF e.t = "Const" THEN e ELSE EraseKinds(e)
+RECURSIVE CMapE(_, _, _), CMapKids(_, _, _)
+CMapE(e, sg, memo) ==
+    LET key == CKey(e)
+        hit == SelectSeq(memo, LAMBDA p : p[1] = key)
+    IN  IF Len(hit) > 0 THEN [e |-> hit[1][2], memo |-> memo]
+        ELSE LET r == IF Len(Kids(e)) = 0 THEN [e |-> RenameE(e, sg), memo |-> memo]
+                      ELSE LET ks == CMapKids(Kids(e), sg, memo) IN
+                           [e |-> WithKids(e, ks.es), memo |-> ks.memo]
+             IN  [e |-> r.e, memo |-> Append(r.memo, << key, r.e >>)]
+CMapKids(ks, sg, memo) ==
+    IF Len(ks) = 0 THEN [es |-> << >>, memo |-> memo]
+    ELSE LET h == CMapE(Head(ks), sg, memo)
+             t == CMapKids(Tail(ks), sg, h.memo)
+         IN  [es |-> << h.e >> \o t.es, memo |-> t.memo]
+RECURSIVE CMapStream(_, _, _, _)
+CMapStream(S, k, sg, memo) ==
+    IF k > Len(S) THEN << >>
+    ELSE LET s == S[k] IN
+         IF s.kind = "Nop" THEN << s >> \o CMapStream(S, k + 1, sg, memo)
+         ELSE LET l == CMapE(s.lhs, sg, memo)
+                  r == CMapE(s.rhs, sg, l.memo)
+                  c == IF s.kind = "CondAssign" THEN CMapE(s.cond, sg, r.memo)
+                       ELSE [e |-> s.cond, memo |-> r.memo]
+              IN  << [s EXCEPT !.lhs = l.e, !.rhs = r.e, !.cond = c.e] >>
+                  \o CMapStream(S, k + 1, sg, c.memo)
+DisImplCachedResult(SA, SB, flt) == CMapStream(SB, 1, DisImplMap(SA, SB, flt, FALSE), << >>)
+
 \* --- utils.get_dot_dependency_graph: closure, then in-place reduction -------
 \* dep_graph is a dict keyed by the statements that have dependencies, in list order
 RECURSIVE ReduceInPlace(_, _, _)
